@@ -111,15 +111,41 @@ type cliScriptConn struct {
 	writes  []writeRec
 	probe   []writeRec // writes made while probing (not part of the call under test)
 	probing bool
+
+	// closeMode: what Close() does. 0: closes, returns nil. 1: closes (ReadFrom
+	// and WriteTo fail from then on) but reports an error, like close(2)
+	// returning EIO. 2: reports an error and the conn stays usable (ReadFrom
+	// keeps blocking) until forceClose.
+	closeMode int
+	// hooks: replies handed to the receive loop from INSIDE the WriteTo made at
+	// virtual instant t (a peer that answers before WriteTo returns): WriteTo
+	// injects the datagram and returns only after the loop has read it and
+	// come back for the next datagram.
+	hooks    map[int64][]byte
+	injected int      // datagrams put on `in`
+	reads    int      // datagrams ReadFrom has returned
+	enter    chan int // ReadFrom announces (value of reads) every time it is entered
 }
 
+var errCliConnClose = fmt.Errorf("scripted conn: close reports an I/O error")
+
 func cli_newScriptConn(now func() int64) *cliScriptConn {
-	return &cliScriptConn{now: now, in: make(chan []byte, 4096), closed: make(chan struct{})}
+	return &cliScriptConn{now: now, in: make(chan []byte, 4096), closed: make(chan struct{}), enter: make(chan int, 1<<16)}
 }
 
 func (c *cliScriptConn) ReadFrom(b []byte) (int, net.Addr, error) {
+	c.mu.Lock()
+	r := c.reads
+	c.mu.Unlock()
+	select {
+	case c.enter <- r:
+	default:
+	}
 	select {
 	case p := <-c.in:
+		c.mu.Lock()
+		c.reads++
+		c.mu.Unlock()
 		return copy(b, p), &net.UDPAddr{IP: net.IPv4(192, 0, 2, 1), Port: 67}, nil
 	case <-c.closed:
 		return 0, nil, net.ErrClosed
@@ -137,8 +163,29 @@ func (c *cliScriptConn) WriteTo(b []byte, a net.Addr) (int, error) {
 	r := writeRec{t: c.now(), dest: a, bytes: append([]byte(nil), b...)}
 	if c.probing {
 		c.probe = append(c.probe, r)
-	} else {
-		c.writes = append(c.writes, r)
+		return len(b), nil
+	}
+	c.writes = append(c.writes, r)
+	if reply, ok := c.hooks[r.t]; ok {
+		delete(c.hooks, r.t)
+		// the peer answers at once: hand the reply to the receive loop and wait until it has
+		// dealt with it (it is back in ReadFrom having read everything injected so far)
+		for len(c.enter) > 0 {
+			<-c.enter
+		}
+		c.in <- reply
+		c.injected++
+		target := c.injected
+		c.mu.Unlock()
+		for done := false; !done; {
+			select {
+			case n := <-c.enter:
+				done = n >= target
+			case <-c.closed:
+				done = true
+			}
+		}
+		c.mu.Lock()
 	}
 	return len(b), nil
 }
@@ -151,7 +198,18 @@ func (c *cliScriptConn) snapshot() []writeRec {
 	return append([]writeRec(nil), c.writes...)
 }
 
-func (c *cliScriptConn) Close() error                     { c.once.Do(func() { close(c.closed) }); return nil }
+func (c *cliScriptConn) Close() error {
+	switch c.closeMode {
+	case 1:
+		c.forceClose()
+		return errCliConnClose
+	case 2:
+		return errCliConnClose
+	}
+	c.forceClose()
+	return nil
+}
+func (c *cliScriptConn) forceClose()                      { c.once.Do(func() { close(c.closed) }) }
 func (c *cliScriptConn) LocalAddr() net.Addr              { return &net.UDPAddr{} }
 func (c *cliScriptConn) SetDeadline(time.Time) error      { return nil }
 func (c *cliScriptConn) SetReadDeadline(time.Time) error  { return nil }
@@ -159,6 +217,9 @@ func (c *cliScriptConn) SetWriteDeadline(time.Time) error { return nil }
 
 // inject never blocks (the queue is far larger than any script).
 func (c *cliScriptConn) inject(b []byte) {
+	c.mu.Lock()
+	c.injected++
+	c.mu.Unlock()
 	select {
 	case c.in <- b:
 	default:
@@ -280,7 +341,7 @@ func datagramFor(v6 bool, kind string, x uint32, idx int) []byte {
 			return reply6(x, 'A', idx)
 		case "rej":
 			return reply6(x, 'R', idx)
-		case "ix", "ih":
+		case "ix", "ih", "ih0", "ih3", "ih5", "ihx":
 			return reply6(x^0x00a5a5, 'A', idx)
 		case "ig":
 			return []byte{1, 2} // truncated header
@@ -304,6 +365,14 @@ func datagramFor(v6 bool, kind string, x uint32, idx int) []byte {
 			return reply4(x, 'A', idx, dhcpv4.OpcodeBootRequest, clHW)
 		case "ih":
 			return reply4(x, 'A', idx, dhcpv4.OpcodeBootReply, clOtherHW)
+		case "ih0": // hlen 0: empty chaddr
+			return reply4(x, 'A', idx, dhcpv4.OpcodeBootReply, net.HardwareAddr{})
+		case "ih3": // a proper prefix of the client's address (the OUI)
+			return reply4(x, 'A', idx, dhcpv4.OpcodeBootReply, clHW[:3])
+		case "ih5":
+			return reply4(x, 'A', idx, dhcpv4.OpcodeBootReply, clHW[:5])
+		case "ihx": // the client's address followed by more bytes
+			return reply4(x, 'A', idx, dhcpv4.OpcodeBootReply, append(append(net.HardwareAddr{}, clHW...), 0x01, 0x02))
 		case "ie":
 			return []byte{}
 		}
